@@ -877,7 +877,7 @@ impl<T: Transport + 'static> SyncEngine<T> {
                                 // the destination: it is a skipped entry, not a created or updated one
                                 Ok(None)
                                     if source.is_symlink
-                                        && !matches!(symlink_mode, SymlinkMode::Preserve) =>
+                                        && transferrer.symlink_is_left_out(source) =>
                                 {
                                     {
                                         let mut stats = stats.lock().unwrap();
@@ -1033,9 +1033,9 @@ impl<T: Transport + 'static> SyncEngine<T> {
                                 // updated one
                                 Ok(None)
                                     if source.is_symlink
+                                        && transferrer.symlink_is_left_out(source)
                                         && (matches!(symlink_mode, SymlinkMode::Skip)
-                                            || (matches!(symlink_mode, SymlinkMode::Follow)
-                                                && !dest_was_link)) =>
+                                            || !dest_was_link) =>
                                 {
                                     {
                                         let mut stats = stats.lock().unwrap();
